@@ -1,10 +1,11 @@
 """C14 — the overhang filter prints layer by layer in the requested direction.
 
 Workload: every domain size up to the tier bound (2D and 3D) x every print direction (4 / 6) x nsampling
-(3 | 5, 9) is one case.  Inside a case the real OverhangFilter is constructed for *every spelling* of that
+(3 | 5, 9) is one case.  Inside a case the real OverhangFilter is constructed for many spellings of that
 direction (strings '+x' 'x+' 'x' 'X-' ' -y' ..., vectors as list/tuple/ndarray, int/float, scaled, 2- and
-3-component), with the default and with random (xi_0, p, eps), and evaluated on random, binary, noisy-binary,
-constant, column, bridge, island and staircase designs.
+3-component; over the enumeration every spelling of every direction is used hundreds of times), with the default
+and with random / corner (xi_0, p, eps), and evaluated on random, binary, noisy-binary, constant, column, bridge,
+island, staircase and extreme-value designs; module instances are re-used for several designs.
 
 Oracles (all plain numpy on the (i,j,k) array of the field, no call into the judged code):
  * parsed direction: `module.direction` against an independent parser (axis and sign);
@@ -43,6 +44,10 @@ ASSUMPTIONS = [
     "{0} u [1e-6,1e-2]; parameter draws with Q = p + ln(ns)/ln(xi_0) < 1 are re-drawn (the P-Q smooth maximum of "
     "Langelaar's scheme needs Q > 0; Q >= 1 bounds the conditioning 1/Q of the Q-th root)",
     "element (i,j,k) has number (k*nely+j)*nelx+i (verified by C13)",
+    "supporting elements (Langelaar 2016/2017): 2D the element below and its two in-plane neighbours; 3D, 5 points: "
+    "the element below and its four edge neighbours, 9 points: also the four diagonal neighbours; positions outside "
+    "the domain do not contribute",
+    "`direction` attribute: only axis and sign are judged (off-axis components zero), not its length",
     "admissible direction spellings: strings consisting of one axis letter (either case) and an optional sign before "
     "or after it, optionally padded by blanks (bare letter = positive); vectors (list/tuple/ndarray, int or float, "
     "any positive length) with dim or 3 components",
@@ -63,11 +68,11 @@ FLOORS = {
               "vector_forms_checked": 11000, "elements_local_checked": 800000, "elements_global_checked": 800000,
               "base_elements_checked": 400000, "overshoot_checked": 1200000, "solid_checked": 80000,
               "unsupported_checked": 14000, "mirror_relations": 21000, "swap_relations": 20000},
-    "thorough": {"cases_held": 3000, "distinct_nontrivial": 1400, "modules_built": 150000,
-                 "string_forms_checked": 40000, "vector_forms_checked": 60000, "elements_local_checked": 2.0e7,
-                 "elements_global_checked": 2.0e7, "base_elements_checked": 4.0e6, "overshoot_checked": 2.5e7,
-                 "solid_checked": 1.5e6, "unsupported_checked": 1.0e6, "mirror_relations": 25000,
-                 "swap_relations": 25000},
+    "thorough": {"cases_held": 4900, "distinct_nontrivial": 1500, "modules_built": 165000,
+                 "string_forms_checked": 85000, "vector_forms_checked": 80000, "elements_local_checked": 14000000,
+                 "elements_global_checked": 14000000, "base_elements_checked": 4700000,
+                 "overshoot_checked": 19000000, "solid_checked": 1300000, "unsupported_checked": 240000,
+                 "mirror_relations": 160000, "swap_relations": 150000},
 }
 TIMEOUT_CASE = 300
 
